@@ -24,16 +24,16 @@ type violation struct {
 }
 
 type result struct {
-	Property    string         `json:"property"`
-	Domain      string         `json:"domain"`
-	Inputs      int64          `json:"inputs"`
-	Evaluations int64          `json:"evaluations"`
+	Property    string           `json:"property"`
+	Domain      string           `json:"domain"`
+	Inputs      int64            `json:"inputs"`
+	Evaluations int64            `json:"evaluations"`
 	Classes     map[string]int64 `json:"result_classes"`
-	Samples     []string       `json:"samples"`
-	Violations  []violation    `json:"violations,omitempty"`
-	NViolations int64          `json:"n_violations"`
-	Exhaustive  bool           `json:"exhaustive"`
-	WallS       float64        `json:"wall_s"`
+	Samples     []string         `json:"samples"`
+	Violations  []violation      `json:"violations,omitempty"`
+	NViolations int64            `json:"n_violations"`
+	Exhaustive  bool             `json:"exhaustive"`
+	WallS       float64          `json:"wall_s"`
 }
 
 // collector is shared by the shards of one enumeration.
